@@ -14,7 +14,7 @@ import tempfile
 import pysam
 
 from checks.common import np, pd
-from mc import vpool
+from mc import tlcpool, vpool
 from mc.engine import Exc, digest, innermost_repo_frame
 from mc.repo import repo_root
 from models import bam as M
@@ -181,6 +181,11 @@ def cases(tier):
     if t:
         for j in range(16):
             yield {"check": "schedules", "algo": "pileup", "bins": 4, "chunk": 1, "workers": 1, "part": [j, 16]}
+    # scope E: the executor contract as a TLA+ model; every behaviour TLC enumerates is replayed on the real code
+    for algo, bins, chunk, workers in (("pileup", 2, 1, 2), ("pileup", 3, 1, 1), ("count", 4, 0, 2), ("pileup", 3, 1, 2)) + (
+        (("pileup", 5, 2, 2), ("pileup", 4, 1, 1), ("pileup", 3, 1, 3)) if t else ()
+    ):
+        yield {"check": "tlc", "algo": algo, "bins": bins, "chunk": chunk, "workers": workers}
 
 
 def run(case, ctx):
@@ -203,6 +208,8 @@ def run(case, ctx):
             run_pools(case, ctx, tmp)
         elif k == "schedules":
             run_schedules(case, ctx, tmp)
+        elif k == "tlc":
+            run_schedules(dict(case, part=[0, 1]), ctx, tmp, tlc=True)
         else:
             raise ValueError(k)
     finally:
@@ -426,7 +433,7 @@ def _child_schedule(algo, bins, chunk, workers, prefix, tmp):
     return {"result": res, "trace": s.trace, "pools": s.pools, "left": left}
 
 
-def run_schedules(case, ctx, tmp):
+def run_schedules(case, ctx, tmp, tlc=False):
     from checks.c10 import forked
 
     reads = fixed_bam("pile50")
@@ -443,6 +450,7 @@ def run_schedules(case, ctx, tmp):
     serial = table_rows(serial)
     n = 0
     labels = []
+    explored = set()
 
     def once(prefix):
         rep = forked(_child_schedule, case["algo"], case["bins"], case["chunk"], case["workers"], prefix, tmp)
@@ -453,6 +461,7 @@ def run_schedules(case, ctx, tmp):
         ctx.transition()
         ctx.trace()
         labels = [t[2] for t in trace]
+        explored.add(tuple(labels))
         sub = {"schedule": labels, "choices": [t[1] for t in trace]}
         ctx.state(("schedule", case["algo"], case["bins"], case["chunk"], case["workers"], tuple(t[1] for t in trace)), nontrivial=any(t[1] for t in trace))
         ctx.outcome(digest(rep["result"]))
@@ -474,6 +483,20 @@ def run_schedules(case, ctx, tmp):
                 observed=res[1],
                 sub=sub,
             )
+    if tlc:
+        # tasks the call fans out: chunks of the regions file (pileup) or contigs with bins (count)
+        k_tasks = -(-case["bins"] // case["chunk"]) if case["algo"] == "pileup" else len({b[0] for b in bins})
+        model, stats = tlcpool.schedules(k_tasks, case["workers"])
+        if model != explored:
+            raise RuntimeError(
+                "executor model (models/tla/PoolMap.tla) and explored schedules differ for %r: %d only in the model, %d only "
+                "explored; e.g. %r / %r"
+                % (case, len(model - explored), len(explored - model), sorted(model - explored)[:1], sorted(explored - model)[:1])
+            )
+        ctx.stratum("tlc-behaviours-replayed-on-implementation", len(model))
+        ctx.stratum(f"tlc-K{k_tasks}-W{case['workers']}-distinct-states", stats["tlc_distinct_states"])
+        ctx.sample(f"tlc-K{k_tasks}-W{case['workers']}", {"case": case, "tlc": stats, "explored_schedules": len(explored), "sets_equal": True})
+        return
     ctx.stratum(f"schedules-{case['algo']}-bins{case['bins']}-chunk{case['chunk']}-w{case['workers']}", n)
     ctx.sample(f"schedules-{case['algo']}", {"case": case, "schedules_in_part": n, "last": labels})
 
@@ -485,9 +508,11 @@ MANIFEST = {
     "algorithms, BED shape and column variants x fixed BAMs incl. piles, compared with a per-base depth-array model; the "
     "worker fan-out is model-checked: a virtual ProcessPoolExecutor enumerates every schedule (produce chunk / run task on "
     "worker / deliver+remove chunk file) for 2-3 chunks and 2 chromosome tasks and every result must equal the serial table; "
-    "real pools of 2/3/16 x chunk sizes 1/2/3/5000 conform.",
+    "real pools of 2/3/16 x chunk sizes 1/2/3/5000 conform. The executor contract is also a TLA+ model (models/tla/PoolMap.tla): TLC "
+    "enumerates its behaviours for K tasks x W workers and the set of terminal behaviours must equal the set of schedules "
+    "the explorer replayed on the real code (every model trace validated against the implementation, none missed or invented).",
     "note": "Trusted: pysam/htslib as BAM writer and as the thing under the code (samtools bedcov); the depth-array model; the "
     "virtual executor's contract (mc/vpool.py). Not covered: reads with indels/skips, CRAM, >9000 reads, OS-level races "
     "inside htslib.",
-    "technique": "exhaustive input enumeration against a depth-array model + stateless schedule enumeration (choice-sequence DFS over a virtual process pool)",
+    "technique": "exhaustive input enumeration against a depth-array model + stateless schedule enumeration (choice-sequence DFS over a virtual process pool), cross-validated against TLC's explicit-state enumeration of a TLA+ model of the executor contract",
 }
